@@ -216,3 +216,27 @@ func (f *queuedRSTStreamFrame) send(dest *http2.Framer) error {
 func (f *queuedRSTStreamFrame) String() string {
 	return fmt.Sprintf("RSTStream[id=%d, errCode=%v]", f.streamID, f.errCode)
 }
+
+// queuedSettingsAckFrame is a SETTINGS acknowledgement. It belongs to no stream and is not
+// subject to flow control; it is queued only to keep its place among the frames that are
+// written to the same destination.
+type queuedSettingsAckFrame struct{}
+
+func (*queuedSettingsAckFrame) StreamID() uint32 {
+	return 0
+}
+
+func (*queuedSettingsAckFrame) flowControlSize() int {
+	return 0
+}
+
+func (*queuedSettingsAckFrame) send(dest *http2.Framer) error {
+	if err := dest.WriteSettingsAck(); err != nil {
+		return fmt.Errorf("sending settings ack: %w", err)
+	}
+	return nil
+}
+
+func (*queuedSettingsAckFrame) String() string {
+	return "settings ack"
+}
